@@ -294,6 +294,25 @@ func dumpParams(e *Engine) {
 	}
 	fmt.Println("}")
 	fmt.Println()
+	fmt.Println("// every named type of the state-machine packages in the reviewed tree")
+	fmt.Println("var baselineTypes = map[string]bool{")
+	var tnames []string
+	for _, p := range e.Pkgs {
+		if !smPkgs[p.PkgPath] || p.Types == nil {
+			continue
+		}
+		for _, n := range p.Types.Scope().Names() {
+			if tn, ok := p.Types.Scope().Lookup(n).(*types.TypeName); ok {
+				tnames = append(tnames, alias(p.PkgPath)+"."+tn.Name())
+			}
+		}
+	}
+	sort.Strings(tnames)
+	for _, n := range tnames {
+		fmt.Printf("\t%q: true,\n", n)
+	}
+	fmt.Println("}")
+	fmt.Println()
 	fmt.Println("// every top-level function of the state-machine packages in the reviewed tree")
 	fmt.Println("var baselineFuncs = map[string]bool{")
 	var all []string
